@@ -97,6 +97,12 @@ CLAIMED["C01"] = {
     "design_ref": "DESIGN.md section 5 C01 and section 10",
     "technique": "Coq proof (Flocq binary32/64 theorems on the output stage, carry loops and gain stages; refinement onto C02's renderer) + whole-manager scenes on a real audio thread with counting allocator and counterfactual attribution",
 }
+
+CLAIMED["C09"] = {
+    "text": "Coq theorems (16 of 17 closed under the global context): for every number, frame and sample type and operations (hence bit-for-bit in IEEE), the model of StreamingSound + DecodeScheduler over ANY conforming decoder (any packetisation, any seek-landing function) is proved by a lock-step simulation to produce, whenever the decoder keeps ahead (a tight, externally checkable criterion: the ring holds max(4, pops) entries or the decoder has finished) and every rate read is non-negative, the same output frames, playback states, finished() and position index as the static-sound model (C04's), for any audio, slice inside it, start position, loop region (degenerate ones included), start time, fixed or modulator-linked values, fade-in, and any history of volume / rate / panning / pause / resume / resume_at / stop commands and callbacks; reported positions differ by less than one frame (exact arithmetic); the result is independent of packetisation and seek landing; process is atomic with respect to concurrent ring pushes. Each guard clause has a refutation witness replayed on kira (starved, negative rate; known findings F46 slice beyond the audio, F47 rate -0.0). Correspondence: a real StaticSoundData and a real StreamingSoundData over a scripted decoder with a real decoder thread (paced through two cfg yield points), side by side and through two AudioManagers; output bit patterns, states, finished() and positions compared with each other (the property) and with the model. Partial: seeks, set_loop_region and reverse are excluded (seeks: C18/C04); real codecs are C18; the fraction bound in binary64 is monitored only.",
+    "design_ref": "DESIGN.md section 5 C09",
+    "technique": "Coq proof (lock-step simulation over a shared tape, generic in number and sample operations) + real static and streaming sounds driven side by side with a paced decoder thread, bit-exact vm_compute model comparison",
+}
 REASON_WIP = "check not built yet in this session (work in progress; planned per DESIGN.md section 5)"
 
 def main():
@@ -141,6 +147,6 @@ def main():
     }
     json.dump(m, open("/verif/MANIFEST.json", "w"), indent=1)
 
-HOOK_COMMITS = ["c3a3210", "3d8e4a9", "b9497fa", "7696f91", "f571aea"]
+HOOK_COMMITS = ["c3a3210", "3d8e4a9", "b9497fa", "7696f91", "f571aea", "2f68677"]
 if __name__ == "__main__":
     main()
